@@ -92,6 +92,14 @@ macro_rules! field_type {
             // ---- constants
             for (name, item) in consts.as_object().ok_or("consts")? {
                 let item = item.as_str().unwrap_or("");
+                if name == "min_value" || name == "max_value" {
+                    // Some(constant with the bound of the component type)
+                    let c: Option<T> = if name == "min_value" { <T as RealField>::min_value() } else { <T as RealField>::max_value() };
+                    let want: F = if item == "MIN" { F::MIN } else { F::MAX };
+                    let ok = matches!(&c, Some(v) if v.re.to_bits() == want.to_bits() && parts_zero(&v.to_json()));
+                    rep.ok(format!("{key}|const|{name}"), ok, || json!({"observed": c.as_ref().map(|v| v.to_json()), "expected_re": want as f64}));
+                    continue;
+                }
                 let c: T = match name.as_str() {
                     "pi" => <T as RealField>::pi(), "two_pi" => <T as RealField>::two_pi(), "frac_pi_2" => <T as RealField>::frac_pi_2(),
                     "frac_pi_3" => <T as RealField>::frac_pi_3(), "frac_pi_4" => <T as RealField>::frac_pi_4(),
